@@ -33,7 +33,7 @@ static DimacsDoc gen_doc(Rng &r, int max_n, int max_m) {
     bool bad_vertex = d.n >= 1 && m > 0 && r.chance(0.08);
     std::vector<std::string> lines;
     auto comment = [&]() { std::string c = r.chance(0.5) ? "c" : "#"; int len = r.chance(0.1) ? (int) r.range(200, 1000) : (int) r.range(0, 40);
-        static const char *texts[] = {" e 1 2 7", " p edge 9 9", "omment", " a 3 4", " weight 1.5", "", " #", "c"}; c += texts[r.below(8)]; while ((int) c.size() < len) c += (char) ('a' + r.below(26)); if (c.size() > 1000) c.resize(1000); return c; };
+        static const char *texts[] = {" e 1 2 7", " p edge 9 9", " comment", " a 3 4", " weight 1.5", "", " #", " c"}; c += texts[r.below(8)]; if ((int) c.size() < len && c.size() == 1) c += ' '; while ((int) c.size() < len) c += (char) ('a' + r.below(26)); if (c.size() > 1000) c.resize(1000); return c; };
     int pre = (int) r.below(3); for (int i = 0; i < pre; i++) lines.push_back(comment());
     if (pre) d.features.push_back("comment_before_problem_line");
     { char b[128]; long decl_m = r.chance(0.85) ? m : (long) r.range(0, 50); snprintf(b, sizeof b, "p %s %ld %ld", r.chance(0.5) ? "edge" : (r.chance(0.5) ? "sp" : "col"), d.n, decl_m); lines.push_back(b); }
